@@ -30,8 +30,10 @@ STATE_COUNTING = ("stateless exploration of the environment: states = complete e
 ASSUMPTIONS = ["network menu: /8 /12 /16 /24 /30 /32 on window bases + the RFC 1918 blocks, "
                "singletons and pairs", "reference mask definition: ones-then-zeros or zeros-then-ones"]
 
+# incl. networks whose base address coincides with that of a (default or listed) shorter prefix
 NET_MENU = ["10.0.0.0/8", "172.16.0.0/12", "192.168.0.0/16", "10.1.0.0/16", "10.1.2.0/24",
-            "10.1.2.0/30", "10.1.2.3/32", "200.7.6.0/24", "138.0.0.0/8", "10.1.2.3"]
+            "10.1.2.0/30", "10.1.2.3/32", "200.7.6.0/24", "138.0.0.0/8", "10.1.2.3",
+            "10.0.0.0/24", "192.168.0.0/24", "172.16.0.0/16", "12.0.0.0/8", "0.0.0.0/8", "224.0.0.0/24"]
 
 
 def bounds(tier, seed):
